@@ -65,6 +65,10 @@ fn case_json(w: &World, c: &Case) -> Value {
 /// The readers a mutated file of this kind is handed to: every transcript variant, plus the Debug-formatting walk.
 fn apis(kind: corpus::Kind) -> Vec<Option<Variant>> {
     let mut v: Vec<Option<Variant>> = kind.variants().iter().map(|v| Some(*v)).collect();
+    if kind == corpus::Kind::Crai {
+        // `read_index()` (not listed by the corpus because it failed on every multi-record index before fix e4aaf15)
+        v.push(Some(Variant::Eager));
+    }
     if dbgfmt::applies(kind) {
         v.push(None);
     }
@@ -476,9 +480,25 @@ fn main() {
         let p = Probe::from_json(pj).expect("probe json");
         println!("{}", p.describe());
         if ctx.param("catch").is_some() {
-            match p.run(&w) {
-                Ok(oc) => println!("outcome: {}", OC_NAMES[oc]),
-                Err(pi) => println!("panic:{}", sigs::site_sig(&pi)),
+            // under the full monitor (forked, CPU timer, allocation limits), exactly as in a run
+            let limits = Limits { cpu_budget_s: 20.0, rlimit_as: 6144 << 20 };
+            let errfile = ctx.work.join(format!("probe-{}.stderr", std::process::id()));
+            let run_one = |_k: usize| -> ProbeOut {
+                match p.run(&w) {
+                    Ok(oc) => ProbeOut { slot: 0, oc, violation: None },
+                    Err(pi) => ProbeOut { slot: 0, oc: forkrun::OC_PANIC, violation: Some(panic_violation(&pi, &p.describe(), Value::Null)) },
+                }
+            };
+            let describe = |_k: usize| (0usize, p.entry(), p.describe(), Value::Null);
+            let b = forkrun::run_batch(1, &limits, &errfile, &run_one, &describe);
+            let _ = std::fs::remove_file(&errfile);
+            if let Some((sig, _, _)) = b.violations.first() {
+                println!("{sig}");
+            } else if let Some(r) = b.resource_limited.first() {
+                println!("outcome: resource-limit ({r})");
+            } else {
+                let oc = (0..OC_NAMES.len()).find(|&j| b.matrix[0][j] > 0).unwrap_or(forkrun::OC_ERR_OTHER);
+                println!("outcome: {}", OC_NAMES[oc]);
             }
         } else {
             alloc::DIAG_PANIC.store(1, Relaxed);
